@@ -15,7 +15,7 @@ from mcx.core import Check
 from mcx.explore import explore
 from mcx.seams import owned_random
 
-DISPL = ('generic', 'along_bond', 'tiny', 'large')
+DISPL = ('generic', 'along_bond', 'tiny', 'large', 'zero')     # zero: the bonds must still be restored to the table
 TABLES = ('geom', 'fixed', 'geom_rev')      # geom_rev: neighbour lists in reverse (descending) order
 
 
@@ -42,6 +42,8 @@ def displacement(kind, pos, adj, atom, seed):
         return 0.45 * (pos[nb] - pos[atom])
     if kind == 'tiny':
         return np.array([1e-6, -2e-6, 1.5e-6])
+    if kind == 'zero':
+        return np.zeros(3)
     return np.array([5.0, -3.0, 4.0])
 
 
